@@ -17,7 +17,9 @@ EXPLANATION = (
     "instruction carries the position of that same instruction (interpret passes instructions[i] and "
     "its pos for one and the same i); (R4) the stack trace grows at PushStack, shrinks at PopStack "
     "and is drained only on the path that ends the program; (R6) every instruction the generator "
-    "emits carries a position that derives from the construct being lowered.")
+    "emits carries a position that derives from the construct being lowered; (R7) argument errors of "
+    "user SUB / FUNCTION calls are positioned at the call; (R8) the row table counts a CR LF as one line end "
+    "wherever the LF exists (the guard of the look-ahead is not stronger than `in range`; shared with C09.R13).")
 NOT_DECIDED = ["that row/column numbers are correct for arbitrary layouts and line endings (value-level)"]
 
 
@@ -297,3 +299,5 @@ def run(ctx):
     r4_stack_trace(ctx)
     r6_emitted_positions(ctx)
     r7_argument_errors_at_the_call(ctx)
+    from . import c09
+    c09.r13_lookahead_guard_is_tight(ctx, "C11.R8")
